@@ -24,8 +24,8 @@ PROPERTY = "C17"
 
 # CODE VARIANT FLAGS  (value = what today's /repo does; see Model/Syntax.lean)
 # (the environment overrides exist only to try a pending fix: VERIF_REPO=<worktree> VERIF_C17_STRIPNL=0 VERIF_C17_SKIP_RAISES=0)
-STRIPNL = int(os.environ.get("VERIF_C17_STRIPNL", "1"))          # 1: get_lexer_by_name(name) keeps Pygments' stripnl=True; 0: repaired (stripnl=False)
-SKIP_RAISES = int(os.environ.get("VERIF_C17_SKIP_RAISES", "1"))  # 1: bare next(tokens) in tokens_to_spans -> RuntimeError past the end; 0: repaired (break)
+STRIPNL = int(os.environ.get("VERIF_C17_STRIPNL", "0"))          # 1: get_lexer_by_name(name) keeps Pygments' stripnl=True; 0: repaired (stripnl=False)
+SKIP_RAISES = int(os.environ.get("VERIF_C17_SKIP_RAISES", "0"))  # 1: bare next(tokens) in tokens_to_spans -> RuntimeError past the end; 0: repaired (break)
 
 GUIDE = "│"
 CTL = {8, 11, 12, 13}
